@@ -240,6 +240,126 @@ def cli_level(res, rng, tier):
     return n_checked
 
 
+# ---- response level: the real calculateSummary (summary assembly + score + fallback) -----------------------------------
+
+def gen_sections(rng):
+    r = {"DepsEnabled": False, "ArchEnabled": False}
+    if rng.random() < 0.8:
+        r["Cx"] = {"Files": rng.choice(FILES_GRID), "N": rng.choice([0, 1, 10, 200]), "High": rng.choice([0, 0, 1, 7]),
+                   "Avg": rng.choice(AVG_GRID) if rng.random() < 0.6 else rng.uniform(0, 20)}
+    if rng.random() < 0.8:
+        c, w, i = (rng.choice(CNT_GRID) for _ in range(3))
+        r["Dead"] = {"Total": c + w + i, "Crit": c, "Warn": w, "Info": i}
+    if rng.random() < 0.8:
+        g = rng.choice([0, 1, 2, 3, 4, 5, 6, 7, 12, 40])
+        r["Clone"] = {"Total": 2 * g, "Pairs": g * 2, "Groups": g, "Lines": rng.choice([0, 1, 300, 834, 999, 1000, 1001, 2000, 12000, 100000])}
+    for key in ("CBO", "LCOM"):
+        if rng.random() < 0.7:
+            n = rng.choice([0, 1, 3, 4, 10, 40])
+            hi = rng.randrange(0, n + 1)
+            med = rng.randrange(0, n - hi + 1)
+            r[key] = {"Classes": n, "High": hi, "Med": med, "Avg": rng.uniform(0, 9)}
+    if rng.random() < 0.7:
+        m = rng.choice(MOD_GRID)
+        r["Sys"] = {"HasDeps": rng.random() < 0.85, "Modules": m, "Depth": rng.choice([0, 1, 3, 5, 8, 12]), "HasCirc": rng.random() < 0.7,
+                    "CycMods": rng.randrange(0, m + 1) if m else 0, "HasCoupling": rng.random() < 0.8,
+                    "MSD": rng.choice(UNIT_GRID), "HasArch": rng.random() < 0.5, "Compliance": rng.choice(UNIT_GRID)}
+        r["DepsEnabled"] = True
+        r["ArchEnabled"] = r["Sys"]["HasArch"]
+    return r
+
+
+def sections_go(r):
+    d = json.loads(json.dumps(r))
+    for sec, keys in (("Cx", ["Avg"]), ("CBO", ["Avg"]), ("LCOM", ["Avg"]), ("Sys", ["MSD", "Compliance"])):
+        if sec in d:
+            for k in keys:
+                d[sec][k] = C.f2bits(d[sec][k])
+    return d
+
+
+def sections_lean(r, l10, l2):
+    def b(x):
+        return "1" if x else "0"
+    t = [b(r["DepsEnabled"]), b(r["ArchEnabled"])]
+    c = r.get("Cx")
+    t += [b(c)] + ([str(c["Files"]), str(c["N"]), C.f2bits(c["Avg"]), str(c["High"])] if c else ["0", "0", C.f2bits(0.0), "0"])
+    d = r.get("Dead")
+    t += [b(d)] + ([str(d[k]) for k in ("Total", "Crit", "Warn", "Info")] if d else ["0"] * 4)
+    c = r.get("Clone")
+    t += [b(c)] + ([str(c[k]) for k in ("Total", "Pairs", "Groups", "Lines")] if c else ["0"] * 4)
+    for key in ("CBO", "LCOM"):
+        c = r.get(key)
+        t += [b(c)] + ([str(c["Classes"]), str(c["High"]), str(c["Med"]), C.f2bits(c["Avg"])] if c else ["0", "0", "0", C.f2bits(0.0)])
+    y = r.get("Sys")
+    t += [b(y)] + ([b(y["HasDeps"]), str(y["Modules"]), str(y["Depth"]), b(y["HasCirc"]), str(y["CycMods"]), b(y["HasCoupling"]), C.f2bits(y["MSD"]),
+                    b(y["HasArch"]), C.f2bits(y["Compliance"])] if y else ["0", "0", "0", "0", "0", "0", C.f2bits(0.0), "0", C.f2bits(0.0)])
+    return "summary " + " ".join(t) + " " + l10 + " " + l2
+
+
+def canon_sections(r):
+    return "%s|%s|%d|%s|%s" % (",".join(map(str, r["ints"])), ",".join(r["floats"]), r["health"], r["grade"], ",".join(map(str, r["scores"])))
+
+
+def worse_sections(r):
+    """response-level quantities made worse, one at a time (others fixed)"""
+    out = []
+
+    def mod(sec, key, delta, limit=None):
+        if sec in r:
+            w = json.loads(json.dumps(r))
+            w[sec][key] = w[sec][key] + delta
+            if limit is None or w[sec][key] <= limit:
+                out.append(("%s.%s" % (sec, key), w))
+    for d in (1, 2, 5):
+        mod("Clone", "Groups", d)
+        mod("Dead", "Crit", d)
+        mod("Dead", "Warn", d)
+        mod("Dead", "Info", d)
+        if "Sys" in r and r["Sys"]["HasDeps"] and r["Sys"]["HasCirc"]:
+            mod("Sys", "CycMods", d, r["Sys"]["Modules"] if r["Sys"]["Modules"] > 0 else None)
+        if "Sys" in r and r["Sys"]["HasDeps"]:
+            mod("Sys", "Depth", d)
+        if "CBO" in r:
+            mod("CBO", "High", d, r["CBO"]["Classes"] - r["CBO"]["Med"])
+        if "LCOM" in r:
+            mod("LCOM", "Med", d, r["LCOM"]["Classes"] - r["LCOM"]["High"])
+    for d in (0.01, 0.7, 4.0):
+        mod("Cx", "Avg", d)
+    return out
+
+
+def response_level(res, rng, tier, mult, ps):
+    n = (300 if tier == "quick" else 3000) * mult
+    bases = [gen_sections(rng) for _ in range(n)]
+    cases = [("base", i, None, b) for i, b in enumerate(bases)]
+    for i, b in enumerate(bases):
+        for q, w in worse_sections(b):
+            cases.append(("worse", i, q, w))
+    go = C.harness_batch("summary", [sections_go(c[3]) for c in cases])
+    errs = [g for g in go if "error" in g]
+    if errs:
+        res.violation("harness summary: " + errs[0]["error"], {"error": errs[0]})
+        return 0, 0
+    diffs = 0
+    if os.path.exists(C.driver_path()):
+        lean = C.driver_batch([sections_lean(c[3], g["log10"], g["log2"]) for c, g in zip(cases, go)])
+        for c, g, lo in zip(cases, go, lean):
+            if canon_sections(g) != lo:
+                diffs += 1
+                if diffs <= 3:
+                    res.violation("correspondence (summary assembly): implementation `%s` vs model `%s`" % (canon_sections(g), lo),
+                                  {"correspondence": "PV.Summary.calculateSummary (Float) vs app.calculateSummary", "sections": c[3]}, found_input=False)
+    base_out = {c[1]: g for c, g in zip(cases, go) if c[0] == "base"}
+    for c, g in zip(cases, go):
+        if not (0 <= g["health"] <= 100) or g["grade"] != grade_of(g["health"]):
+            res.violation("final score %s/%s out of range or misgraded" % (g["health"], g["grade"]), {"sections": c[3], "impl": g})
+        if c[0] == "worse" and g["health"] > base_out[c[1]]["health"]:
+            res.violation("response level: making %s worse raised the reported score %d -> %d" % (c[2], base_out[c[1]]["health"], g["health"]),
+                          {"signature": {"kind": "mono-response", "quantity": c[2]}, "base_sections": bases[c[1]], "worse_sections": c[3]})
+    return len(cases), diffs
+
+
 def run(tier, seed, replay=None):
     res = C.Result(PID, tier, seed)
     rng = random.Random(seed * 1000003 + 15)
@@ -339,6 +459,7 @@ def run(tier, seed, replay=None):
             else:
                 res.violation("skipping %s lowered the score %d -> %d" % (q, b["health"], r["health"]),
                               {"signature": sig, "base": bases[i], "worse": v})
+    nresp, rdiffs = response_level(res, rng, tier, mult, ps)
     ncli = cli_level(res, rng, tier)
     # --- broken proof/tie with no failing input ---------------------------------------------------
     if not ps.ok and not any(f for _, _, f in res.violations):
@@ -346,7 +467,9 @@ def run(tier, seed, replay=None):
                       {"broken": ps.broken, "note": "no input violating C15 was found on the implementation in %d evaluations" % len(cases)},
                       found_input=False)
     res.coverage.update({
-        "evaluations": len(cases),
+        "evaluations": len(cases) + nresp,
+        "response_level_cases": nresp,
+        "response_level_correspondence_diffs": rdiffs,
         "distinct_nontrivial": len(nontrivial),
         "rule": "summary vectors from boundary-biased grids (+1/8 invalid stream); each base vector is also evaluated with every scored "
                 "quantity made worse by several steps and with every analysis skipped; non-trivial = distinct vector with health < 100",
